@@ -2,7 +2,20 @@
 
 COLUMN_TRACE = {'module': 'ColumnTrace', 'cfg': 'ColumnTrace.cfg'}
 
+def seq_prop(profile, nq, nt, mc=None):
+    return {'level': 'model_checking', 'mc': mc or [],
+            'families': [{'family': 'seq', 'profile': profile, 'n_quick': nq, 'n_thorough': nt}],
+            'trace': COLUMN_TRACE, 'assumptions': []}
+
+
 PROPS = {
+    'C02': seq_prop('c02', 60, 1500),
+    'C03': seq_prop('c03', 60, 1500),
+    'C06': seq_prop('c06', 60, 1500),
+    'C11': seq_prop('c11', 60, 1500),
+    'C15': seq_prop('c15', 60, 1500),
+    'C16': seq_prop('c16', 60, 1500),
+    'C19': seq_prop('c19', 60, 1500),
     'C01': {
         'level': 'model_checking',
         'mc': [],
